@@ -349,6 +349,11 @@ class Escape:
                 return out
             if m == "pop" and not c.args:
                 return out
+            if m in ("unpack", "unpack_from") and c.args and self._is_struct_object(f, c.func.value):
+                # <struct.Struct>.unpack(buf): struct.error unless the buffer is known to have exactly/at least the struct's size
+                if not self._struct_len_guard(f, st, c):
+                    out |= self._prim(f, "struct.error", c, "struct unpack " + src(c)[:60], st)
+                return out
         if name == "next" and len(c.args) == 1:
             out |= self._prim(f, "StopIteration", c, "next " + src(c)[:60], st)
             return out
@@ -364,6 +369,26 @@ class Escape:
             self.external_unknown.add(cal.fq)
         # lambda / callable values: dict-dispatched pretty functions etc. are not followed
         return out
+
+    def _is_struct_object(self, f: Func, recv: ast.AST) -> bool:
+        """recv is (a name bound to) a struct.Struct(...) construction - module level or local."""
+        o = origin(f.node, recv)
+        if isinstance(o, ast.Name) and o.id in f.module.consts and not assignments_to(f.node, o.id) and o.id not in params(f.node):
+            o = f.module.consts[o.id]
+        return isinstance(o, ast.Call) and (dotted(o.func) or "").split(".")[-1] == "Struct"
+
+    def _struct_len_guard(self, f: Func, st: ast.AST, c: ast.Call) -> bool:
+        """The unpacked buffer's length is tied to <recv>.size by a dominating comparison (==, or >= for unpack_from)."""
+        buf, recv = src(c.args[0]), src(c.func.value)
+        want = f"{recv}.size"
+        for t, pol, n in dominating_conditions(self.ctx, f, st if isinstance(st, ast.stmt) else c):
+            for l, op, r in compare_parts(n):
+                if src(l) == f"len({buf})" and src(r) == want:
+                    if (isinstance(op, ast.Eq) and pol) or (isinstance(op, ast.NotEq) and not pol):
+                        return True
+                    if c.func.attr == "unpack_from" and ((isinstance(op, ast.GtE) and pol) or (isinstance(op, ast.Lt) and not pol)):
+                        return True
+        return False
 
     def _int_may_fail(self, f: Func, c: ast.Call) -> bool:
         a = c.args[0]
